@@ -37,6 +37,11 @@ type tableCase struct {
 	// 1 lower-numbered ones (Uri-Path, Accept), 2 higher-numbered ones (Request-Tag 292, an
 	// unknown elective option 65000), 3 both
 	Shape int `json:"shape,omitempty"`
+	// Mutate > 0: the writer is created from the options of a pooled request message (as every
+	// connection does: responsewriter.New(resp, cc, req.Options()...)), and the handler changes the
+	// request before it sets the response: 1 AddQuery, 2 SetAccept, 3 an option above 258 added,
+	// 4 Uri-Path removed, 5 a path of three segments set. The request *as received* decides.
+	Mutate int `json:"mutate,omitempty"`
 }
 
 type relClient struct{}
@@ -65,6 +70,24 @@ func execTable(c tableCase) *evid.Failure {
 	}
 	resp := pool.NewMessage(context.Background())
 	w := responsewriter.New(resp, relClient{}, opts...)
+	if c.Mutate > 0 {
+		req := pool.NewMessage(context.Background())
+		req.SetCode(codes.GET)
+		req.ResetOptionsTo(opts)
+		w = responsewriter.New(resp, relClient{}, req.Options()...)
+		switch c.Mutate {
+		case 1:
+			req.AddQuery("a=b")
+		case 2:
+			req.SetAccept(message.AppJSON)
+		case 3:
+			req.AddOptionBytes(65001, []byte("late"))
+		case 4:
+			req.Remove(message.URIPath)
+		case 5:
+			req.MustSetPath("/one/two/three")
+		}
+	}
 	err = w.SetResponse(codes.Code(c.Code), message.TextPlain, bytes.NewReader([]byte("x")),
 		message.Option{ID: message.ETag, Value: []byte{0xE2, 0x01}}, message.Option{ID: message.MaxAge, Value: []byte{60}})
 	if (err != nil) != want {
@@ -107,8 +130,14 @@ func tableEngine() evid.Engine {
 			values = append(values, 0xffffffff, 0xfffffffd, 0xffffffe5, 0x7fffffff, 255, 256, 65535, 65536, 1<<24-1)
 			for _, v := range values {
 				for code := 0; code < 256; code++ {
-					for shape := 0; shape < 4; shape++ {
-						c := tableCase{v, code, shape}
+					for shape := 0; shape < 4+20; shape++ {
+						c := tableCase{Value: v, Code: code, Shape: shape}
+						if shape >= 4 {
+							c.Shape, c.Mutate = (shape-4)%4, (shape-4)/4+1
+							if v >= 64 || (code>>5 < 2 && code != 0) {
+								continue // mutations: the meaningful values and the response classes
+							}
+						}
 						if f := evid.SafeExec("table", execTable, c); f != nil {
 							r.Fail(f)
 						}
@@ -121,9 +150,10 @@ func tableEngine() evid.Engine {
 				}
 			}
 			r.Class("table/values", int64(len(values)))
-			r.Sample("table", tableCase{2, int(codes.Continue), 0})
-			r.Sample("table", tableCase{8, int(codes.RequestEntityIncomplete), 2})
-			r.Sample("table", tableCase{26, 0xa0, 3})
+			r.Sample("table", tableCase{Value: 2, Code: int(codes.Continue)})
+			r.Sample("table", tableCase{Value: 8, Code: int(codes.RequestEntityIncomplete), Shape: 2})
+			r.Sample("table", tableCase{Value: 26, Code: 0xa0, Shape: 3})
+			r.Sample("table", tableCase{Value: 2, Code: 69, Shape: 1, Mutate: 1})
 		},
 	}
 }
@@ -135,7 +165,7 @@ func TestCheck(t *testing.T) {
 	engines := []evid.Engine{tableEngine()}
 	engines = append(engines, e2eEngines()...)
 	r.Main(evid.Meta{
-		Rule:        "table: every No-Response value 0-63 and a grid of larger values (each high bit alone and combined with the meaningful subsets, 2^32-1, ...) x all 256 codes x 4 request shapes (No-Response alone, behind lower-numbered options, in front of higher-numbered ones such as Request-Tag 292 and an unknown elective option, both) through IsNoResponseCode and ResponseWriter.SetResponse against the RFC 7967 class rule; non-trivial = value != 0 and code class 2.xx-5.xx (distinct by construction). e2e: generated (value, code, CON/NON, transport, optional higher-numbered elective options behind No-Response, a quarter of the datagrams delivered twice) requests to a library endpoint on the in-memory network, oracle on the wire log; non-trivial = value != 0 and a response code, distinct by (transport, type, value, code)",
+		Rule:        "table: every No-Response value 0-63 and a grid of larger values (each high bit alone and combined with the meaningful subsets, 2^32-1, ...) x all 256 codes x 4 request shapes (No-Response alone, behind lower-numbered options, in front of higher-numbered ones such as Request-Tag 292 and an unknown elective option, both) through IsNoResponseCode and ResponseWriter.SetResponse against the RFC 7967 class rule, for values 0-63 also with a writer created from a pooled request's own options and a handler that changes the request (query added, Accept set, a higher option added, path removed or replaced) before it sets the response; non-trivial = value != 0 and code class 2.xx-5.xx (distinct by construction). e2e: generated (value, code, CON/NON, transport, optional higher-numbered elective options behind No-Response, a quarter of the datagrams delivered twice) requests to a library endpoint on the in-memory network, oracle on the wire log; non-trivial = value != 0 and a response code, distinct by (transport, type, value, code)",
 		Assumptions: []string{"RFC 7967 section 2.1 defines only bits 2, 8 and 16; all other bits suppress nothing"},
 		Floor:       1000,
 	}, engines...)
